@@ -190,8 +190,7 @@ def jobs(tier, seed):
     add('bad')
     if tier == 'thorough':
         add('gevp', N=2, T=3, pattern=[True, True, True], t0=0, sort=None, method='cholesky', ts=1)
-        add('gevp', N=3, T=3, pattern=[True, True, True], t0=0, sort=None, method='eigh', ts=1)
-        add('gevp', N=2, T=4, pattern=[True, True, True, True], t0=0, sort='Eigenvalue', method='cholesky')
+        add('gevp', N=2, T=4, pattern=[True, True, True, True], t0=0, sort='Eigenvalue', method='eigh')
     return J
 
 
@@ -221,7 +220,7 @@ META = dict(
     explanation='C16 (wiring only): Corr.GEVP (sort None / "Eigenvalue"), _GEVP_solver (eigh and cholesky methods) and matrix_symmetric run on symbolic matrix entries behind LAPACK contracts '
                 '(eigh: A v = w B v with ascending w and B-orthonormal v on the lower-triangle-defined matrices; cholesky: L L^T = A; inv: X L = L X = 1). Decided: every returned vector satisfies '
                 'G(t) v = lambda G(t0) v for the symmetrised G with the eigenvalue the contract associates to it, state index s <-> s-th largest eigenvalue, undefined timeslices / t <= t0 give None, invalid requests are rejected.',
-    bounds='N = 2 (thorough 3), T = 3..4, t0 in {0,1}, undefined timeslices; methods eigh and cholesky (cholesky for sort=None at N=2).',
+    bounds='N = 2 (N = 3 and the Cholesky method over several timeslices exceed 10 minutes per query in z3 and are not run), T = 3..4, t0 in {0,1}, undefined timeslices; methods eigh and cholesky (cholesky for sort=None at N=2).',
     outside=['recovery of exact exponentials, agreement of the two solvers up to normalisation, eigenvector sorting over time ("Eigenvector"), pruning and the matrix-pencil method: statements about LAPACK eigen/SVD output on specific matrices - not applicable to this technique',
              'vector_obs=True (error propagation through eigh/cholesky: LAPACK + autograd vjps)', 'is_matrix_symmetric (hash based) is forced to the general branch'],
     stubs=['scipy.linalg.eigh / np.linalg.eigh / cholesky / inv -> contracts', 'numpy shim'],
